@@ -10,9 +10,17 @@ import (
 
 // C14 / C11 domain guards on the real code: values outside the domain are refused with an
 // error (no value is returned), for every modulus N >= 2 and every integer argument.
-func VerifHarness_C14_domain_guards() {
-	N := v.NondetNat("N")
-	v.Assume("N>=2", v.LeInt(big.NewInt(2), N))
+func VerifHarness_C14_domain_guards() { verifC14Domain(nil) }
+
+// the same with a concrete (toy) modulus N = 61*53: a counterexample found here does not
+// depend on an uninterpreted gcd and therefore replays natively
+func VerifHarness_C14_domain_guards_toy_key() { verifC14Domain(big.NewInt(3233)) }
+
+func verifC14Domain(N *big.Int) {
+	if N == nil {
+		N = v.NondetNat("N")
+		v.Assume("N>=2", v.LeInt(big.NewInt(2), N))
+	}
 	pk := &PublicKey{N: N}
 	N2 := new(big.Int).Mul(N, N)
 	zero := big.NewInt(0)
@@ -23,11 +31,15 @@ func VerifHarness_C14_domain_guards() {
 	c1Bad := v.Any(v.LtInt(c1, zero), v.LeInt(N2, c1))
 	c2Bad := v.Any(v.LtInt(c2, zero), v.LeInt(N2, c2))
 
-	ct, _, err := pk.EncryptAndReturnRandomness(v.Reader("r"), m)
+	v.UnwindAssume(3)
+	ct, x, err := pk.EncryptAndReturnRandomness(v.Reader("r"), m)
 	v.Assert("encrypt-refuses-exactly-out-of-domain-plaintext", v.Iff(err != nil, mBad))
 	v.Assert("encrypt-returns-no-value-on-error", v.Implies(err != nil, ct == nil))
 	if err == nil {
 		v.Assert("ciphertext-in-range", v.InRange(ct, zero, N2))
+		// the encryption randomness is a unit modulo N (otherwise the ciphertext is not decryptable)
+		g := new(big.Int).GCD(nil, nil, x, N)
+		v.Assert("encryption-randomness-is-a-unit", x.Sign() > 0 && x.Cmp(N) < 0 && g.Cmp(big.NewInt(1)) == 0)
 	}
 	hm, err := pk.HomoMult(m, c1)
 	v.Assert("homomult-refuses-exactly-out-of-domain", v.Iff(err != nil, v.Any(mBad, c1Bad)))
